@@ -20,14 +20,17 @@ from symx.core import Ctx, SymInt, all_, any_, eq, implies, not_
 PROPERTY = "C03"
 FUNCTIONS = ["gcmpy.gcm_algorithm.gcm_algorithm_fast.GCMAlgorithmFast.random_clustered_graph",
              "gcmpy.gcm_algorithm.gcm_algorithm_custom_motifs.GCMAlgorithmCustomMotifs.random_clustered_graph"]
-STUBS = ["random.shuffle / random.sample(k=n) -> fresh symbolic permutation (uniformity of the primitive itself is trusted)"]
+STUBS = ["random.shuffle / random.sample(k=n) -> fresh symbolic permutation (uniformity of the primitive itself is trusted)",
+         "random.randrange / choice (tally configurations only) -> fresh bounded integer, every value forked: one path per resolution, "
+         "path probability = product of 1/range; the table over all paths of a configuration is judged after the exploration"]
 BOUNDS = {
     "quick": "items 1-3 for every joint degree sequence with N<=3, entries 0..2 (<=6 stubs per column) over 5 fast and 4 custom motif "
              "configurations; item 4 (exact tallies over all permutations) for 7 fixed sequences with <=4 stubs per column",
     "thorough": "items 1-3 up to N=4 (<=8 stubs per column); item 4 up to 5 stubs and for two columns jointly (<=4+3 stubs)",
 }
 OUTSIDE = "stub lists longer than 8; generators that randomise through real-valued draws (sort by random()) are reported as undecided; " \
-          "the quality of CPython's shuffle"
+          "generators that randomise through bounded discrete draws (hand-written Fisher-Yates, ...) are decided by the exact tallies only " \
+          "(items 1-3 do not apply to them); the quality of CPython's shuffle / randrange"
 ASSUMPTIONS = ["random.shuffle is uniform over permutations and successive calls are independent (CPython)",
                "lemma: an injective map between arrangements of the same finite multiset is a bijection"]
 EXPECTED_LABELS = ["uniform-primitive-per-column", "arrangement-map-injective", "arrangement-map-well-defined", "columns-independent", "tally-uniform"]
@@ -157,21 +160,71 @@ def path_long(ctx, cfg):
                 f"(rng calls: {[(r['fn'], r['n']) for r in ctx.rng_log][:6]})", sig="uniform-primitive-per-column:long-list")
 
 
-def only_permutation_primitives(ctx):
-    """the push-forward argument and the tallies are built on full-length uniform permutation primitives; a generator that draws through
-    anything else (randrange, random, choice...) cannot be decided here: stop at the first such call instead of forking over its values"""
+DISCRETE = ("randrange", "choice")
+
+
+def only_permutation_primitives(ctx, allow_discrete=False):
+    """the push-forward argument is built on full-length uniform permutation primitives; a generator that draws through anything else
+    cannot be decided by it: stop at the first such call instead of forking over its values.  The exact tallies (item 4) also accept
+    bounded discrete draws (randrange / choice, e.g. a hand-written Fisher-Yates): there every resolution of the draws is one path
+    and the probabilities are added up over the paths (finalize)."""
     from symx.core import PathAbort
 
     def flt(fn):
-        if fn not in ("shuffle", "sample"):
-            ctx.note("undecided: generator draws through RNG primitives other than shuffle/sample")
-            raise PathAbort("undecidable RNG mechanism")
+        if fn in ("shuffle", "sample") or (allow_discrete and fn in DISCRETE):
+            return
+        ctx.note("undecided: generator draws through RNG primitives other than shuffle/sample" + (" / randrange / choice" if allow_discrete else ""))
+        raise PathAbort("undecidable RNG mechanism")
 
     ctx.rng_filter = flt
 
 
+def expected_labels(agg):
+    # a generator that randomises through bounded discrete draws is decided by the tallies alone (items 1-3 do not apply to it)
+    if any(k.startswith("discrete-draw generator") for k in agg.notes):
+        return ["tally-uniform"]
+    return EXPECTED_LABELS
+
+
+def arrangements(d):
+    """number of distinct slot sequences (product over columns of multinomials) for the fixed sequence d"""
+    K = len(d[0])
+    want = 1
+    for k in range(K):
+        n = sum(row[k] for row in d)
+        mult = 1
+        for row in d:
+            mult *= factorial(row[k])
+        want *= factorial(n) // mult
+    return want
+
+
+def finalize(cfg, tag, records, complete):
+    """tallies of a discrete-draw generator: every path is one resolution of its randrange/choice draws with probability prod 1/range;
+    the slot sequences must all be reached with the same total probability"""
+    from fractions import Fraction
+
+    if tag != "tally":
+        return []
+    desc = f"{cfg['alg']}/{cfg['motif']} jds={cfg['d']}"
+    prob = {}
+    for r in records:
+        p = r["payload"]
+        key = repr(p["slots"])
+        prob[key] = prob.get(key, 0) + Fraction(p["w"][0], p["w"][1])
+    total = sum(prob.values())
+    if not complete or total != 1:
+        return [{"label": "tally-uniform", "undecided": f"discrete-draw tally incomplete (total probability {total}): undecided"}]
+    want = arrangements(cfg["d"])
+    ok = len(prob) == want and set(prob.values()) == {Fraction(1, want)}
+    shown = sorted((k, str(v)) for k, v in prob.items())[:8]
+    return [{"label": "tally-uniform", "ok": ok, "sig": "tally-uniform:discrete-draws",
+             "detail": f"{desc}: summed over all {len(records)} resolutions of the generator's discrete draws, {len(prob)} slot sequences are reached "
+                       f"(expected {want}, each with probability 1/{want}); probabilities e.g. {shown}"}]
+
+
 def path(ctx, cfg):
-    only_permutation_primitives(ctx)
+    only_permutation_primitives(ctx, allow_discrete=cfg["kind"] == "tally")
     if cfg["kind"] == "tally":
         return path_tally(ctx, cfg)
     if cfg["kind"] == "long":
@@ -285,7 +338,24 @@ def path_tally(ctx, cfg):
     K = len(r.spec["sizes"])
     other = [c for c in ctx.rng_log if c["fn"] not in ("shuffle", "sample")]
     if other:
-        ctx.note("undecided: generator draws through RNG primitives other than shuffle/sample")
+        # bounded discrete draws: this path is ONE resolution of them; its probability is the product of 1/range over the draws whose
+        # value the generator looked at.  The table over all paths is judged in finalize().
+        from fractions import Fraction
+
+        slots = [gc.column_slots(r, k) for k in range(K)]
+        flat = [x for s_ in slots for x in s_]
+        if any(isinstance(x, SymInt) and x._cv is None for x in flat) or any(rec["n"] >= 2 for rec in r.shuffles):
+            ctx.note("undecided: discrete draws mixed with permutation primitives or left symbolic in the outcome")
+            return
+        w = Fraction(1)
+        for c in [c for c in getattr(r, "first_rng", []) if c["fn"] in DISCRETE] + other:  # an earlier call's draws are part of the resolution
+            res = c["idx"] if c["fn"] == "choice" else c["result"]
+            size = c["n"] if c["fn"] == "choice" else c["hi"] - c["lo"] + 1
+            ctx.fork_int(res)  # every draw is resolved on this path (a draw only compared, not indexed with, would otherwise stay a range)
+            w /= size
+        ctx.note("discrete-draw generator: tallies are added up over the paths")
+        ctx.contribute("tally", {"slots": [[int(x) for x in s_] for s_ in slots], "w": [w.numerator, w.denominator]})
+        ctx.observe("slots", [[int(x) for x in s_] for s_ in slots])
         return
     slots = [gc.column_slots(r, k) for k in range(K)]
     recs = [rec for rec in r.shuffles if rec["n"] >= 2]
